@@ -121,8 +121,9 @@ def version_case(s: Suite, vstr, explicit, has_tr, has_ma):
         ty = "-" if r2.get("err") == "type" else {"time-based": "0", "event-based": "1", "hybrid": "2"}.get(r2.get("type"), "?")
         b = lambda x: "1" if x else "0"  # noqa: E731
         adapters = None
+        ety = {"time-based": "0", "event-based": "1", "hybrid": "2"}.get(r1.get("type"), "?")     # the explicit type (hybrid) must survive
         impl = (f"ok tr={b(r1['tr'])} warn={b(r1['warn'])} "
-                f"{'setup_done' if r1['setup_done'] else '-'} step{r1['step']} get_data other type={ty}")
+                f"{'setup_done' if r1['setup_done'] else '-'} step{r1['step']} get_data other type={ty} etype={ety}")
     def ver(v):
         return "-" if v is None else s_list([int(x) for x in v.split(".")])
     line = f"ver {ver(vstr)} {ver(explicit)} 1 {int(has_tr)} {int(has_ma)}"
